@@ -173,7 +173,8 @@ func Intersection(limit int, sets ...*Set) (*Set, bool) {
 	// Use divide & conquer to get the set intersections
 	switch len(sets) {
 	case 1:
-		return sets[0], false
+		// A copy: the result never shares structure with an operand
+		return NewSet(sets[0].GetAll()), false
 	case 2:
 		intersection := NewSet([]string{})
 		var limitReached bool
@@ -204,9 +205,11 @@ func Intersection(limit int, sets ...*Set) (*Set, bool) {
 func Union(sets ...*Set) *Set {
 	switch len(sets) {
 	case 1:
-		return sets[0]
+		// A copy: the result never shares structure with an operand
+		return NewSet(sets[0].GetAll())
 	case 2:
-		union := sets[0]
+		// The operands are left as they are
+		union := NewSet(sets[0].GetAll())
 		union.Add(sets[1].GetAll())
 		return union
 	default:
